@@ -12,7 +12,7 @@ use serde_json::json;
 pub static SPEC: PropSpec = PropSpec {
     id: "C03",
     level: "exploration",
-    rule: "(a) IR monitor: every accepted corpus and generated program has its Mono / Lift / ANF output walked after the compile: no type parameter, inference variable, generic type application or wildcard array length after monomorphisation, no duplicate function names, and in ANF every variable use is in scope of a binder of the same type, calls agree with the callee's type, conditions are bool, branches and bodies have the declared type. (b) injection: exactly one type error (wrong primitive at a call argument / struct field / annotated let / function result / if condition, over-long or short tuple, extra / missing argument, unknown field) is injected at every eligible site of generated base programs; the variant must be rejected by the typer (not accepted, not a later-stage error, not a crash). non-trivial = an accepted program with >= 20 ANF nodes checked, or an (program, injection site) pair; distinct by hash",
+    rule: "(a) IR monitor: every accepted corpus, generic-library, closure-product (672 cells of C08), Self-position (16 programs: Self nested in a trait method's result type, called through bounds) and generated program has its Mono / Lift / ANF output walked after the compile: no type parameter, inference variable, generic type application or wildcard array length after monomorphisation, no duplicate function names, and in ANF every variable use is in scope of a binder of the same type, calls agree with the callee's type, conditions are bool, branches and bodies have the declared type. (b) injection: exactly one type error (wrong primitive at a call argument / struct field / annotated let / function result / if condition, over-long or short tuple, extra / missing argument, unknown field) is injected at every eligible site of generated base programs; the variant must be rejected by the typer (not accepted, not a later-stage error, not a crash). non-trivial = an accepted program with >= 20 ANF nodes checked, or an (program, injection site) pair; distinct by hash",
     eval_counter: "evaluations",
     assumptions: &[
         "the ANF typing rules are written from the language description (equal types up to structural equality of the compiler's own Ty), polymorphic array/ref/vec builtins are skipped at call sites",
